@@ -35,9 +35,15 @@ func (r *FaultReader) Read(p []byte) (int, error) {
 	}
 	var sizes []int
 	if r.Full && r.FullUntil > 0 && r.Pos >= r.FullUntil {
+		// everything requested; the read that reaches the end of the stream may still deliver its
+		// data together with io.EOF (the io.Reader contract allows it)
+		var err error
+		if want == avail && r.M.Choose(2, "read") == 1 {
+			err = io.EOF
+		}
 		copy(p, r.Data[r.Pos:r.Pos+want])
 		r.Pos += want
-		return want, nil
+		return want, err
 	}
 	if r.Full {
 		for k := want; k >= 1; k-- {
